@@ -153,6 +153,30 @@ type Recipe struct {
 	Compress bool    `json:"compress,omitempty"`
 	Pad      int     `json:"pad,omitempty"`   // extra TXT octets appended to the answer section
 	Token    string  `json:"token,omitempty"` // unique TXT marker appended to the additional section
+	LongName int     `json:"longname,omitempty"` // wire length (up to 255) of the owner name of an extra A record at the head of the answer section
+}
+
+// NameOfWireLen returns a fully qualified name whose wire form has exactly n
+// octets (root included), n in 3..255, made of labels of at most 63 octets.
+func NameOfWireLen(n int) string {
+	if n < 3 {
+		n = 3
+	}
+	if n > 255 {
+		n = 255
+	}
+	left := n - 1 // without the root
+	var sb strings.Builder
+	for i := 0; left > 0; i++ {
+		l := min(left-1, 63)
+		if rem := left - (l + 1); rem == 1 {
+			l-- // never leave room for only a length octet
+		}
+		sb.WriteString(strings.Repeat(string(rune('a'+i%26)), l))
+		sb.WriteByte('.')
+		left -= l + 1
+	}
+	return sb.String()
 }
 
 func refs(out *[]dns.RR, rs []RRRef) {
@@ -192,6 +216,9 @@ func (r *Recipe) Build() *dns.Msg {
 			qt = dns.TypeA
 		}
 		m.Question = []dns.Question{{Name: qn, Qtype: qt, Qclass: dns.ClassINET}}
+	}
+	if r.LongName > 0 {
+		m.Answer = append(m.Answer, &dns.A{Hdr: dns.RR_Header{Name: NameOfWireLen(r.LongName), Rrtype: dns.TypeA, Class: dns.ClassINET, Ttl: 60}, A: []byte{192, 0, 2, 255}})
 	}
 	refs(&m.Answer, r.Answer)
 	refs(&m.Ns, r.Ns)
@@ -253,6 +280,13 @@ func Random(r *rand.Rand, size int) *Recipe {
 	rc.Answer, rc.Ns, rc.Extra = mk(n()), mk(n()), mk(n())
 	if r.IntN(3) == 0 {
 		rc.EDNS = []int{512, 1232, 4096}[r.IntN(3)]
+	}
+	// names at the 255-octet limit, in the question or as an owner
+	switch r.IntN(24) {
+	case 0:
+		rc.QName = NameOfWireLen([]int{255, 255, 254, 253}[r.IntN(4)])
+	case 1:
+		rc.LongName = []int{255, 255, 254, 200}[r.IntN(4)]
 	}
 	return rc
 }
